@@ -9,12 +9,12 @@ def rep_stream(ts):
 
 def rep_batch(ts):
     return lambda i: {"mode": "batch", "params": ts[i]["params"], "batches": ts[i]["batches"], "setrefs": ts[i]["setrefs"],
-                      "first_is_reference": ts[i]["first_is_reference"], "seed": ts[i]["seed"]}
+                      "first_is_reference": ts[i]["first_is_reference"], "seed": ts[i]["seed"], "resets": ts[i].get("resets", [])}
 
 
 def run(ctx):
     q, rng = ctx.quick, ctx.rng
-    ctx.model("MC_KdqDetector", "MC_KdqDetector%s.cfg" % ("" if q else "_deep"), require_actions=("SUpdate", "SReset", "BSetRef", "BUpdate"))
+    ctx.model("MC_KdqDetector", "MC_KdqDetector%s.cfg" % ("" if q else "_deep"), require_actions=("SUpdate", "SReset", "BSetRef", "BUpdate", "BReset"))
     ns, nb = (40, 40) if q else (300, 300)
     ts = []
     for i in range(ns):
@@ -38,7 +38,8 @@ def run(ctx):
         n = rng.randint(6, 12)
         bs = D.batch_sequence(rng, n, rng.randint(1, 3))
         setrefs = sorted(rng.sample(range(2, n), rng.randint(0, 1)))
-        tb.append(D.run_batch(p, bs, setrefs, first_is_reference=rng.random() < 0.8, seed=rng.randrange(10 ** 6)))
+        resets = sorted(rng.sample(range(2, n), rng.randint(1, 2))) if i % 3 == 1 else []          # the caller's own reset(), also right after a drift
+        tb.append(D.run_batch(p, bs, setrefs, first_is_reference=rng.random() < 0.8, seed=rng.randrange(10 ** 6), resets=resets))
     # heavy-tailed data with the default-like count_ubound: the reference tree then has sparsely filled outer leaves,
     # which is where a bootstrap that mis-bins its samples shows (critical value far outside the bracket)
     import numpy as _np
@@ -68,6 +69,6 @@ def replay(ctx, bundle):
     if r["mode"] == "stream":
         t = D.run_stream(r["params"], r["xs"], r["resets"], r["seed"])
     else:
-        t = D.run_batch(r["params"], r["batches"], r["setrefs"], r["first_is_reference"], r["seed"])
+        t = D.run_batch(r["params"], r["batches"], r["setrefs"], r["first_is_reference"], r["seed"], tuple(r.get("resets", ())))
     ctx.validate("KdqDetector", [t], "replay", replay=lambda i: r)
     return ctx.finish()
